@@ -138,7 +138,26 @@ def gen_live2(rng, names=None):
             if c.get("dir"):
                 c["dir"] = [c["dir"][0], lib_db.rel_of(fl, c["name"], c.get("version") or "1")]
         seq.append([len(seq) % 2 if rng.random() < 0.7 else rng.randrange(2), c])
-    return {"op": "live2", "user": u, "flavor": fl, "seq": seq}
+    live = {"op": "live2", "user": u, "flavor": fl, "seq": seq}
+    if rng.random() < 0.6:
+        # the stacks spelled non-normally on EUPS_PATH (trailing slash, doubled slash, dot component): the in-memory
+        # stacks are keyed by the path entries, assignTag / undeclare / unassignTag take the stack from the product
+        live["spell"] = [rng.randrange(4) for _ in range(lib_db.NSTACKS)]
+        if not any(live["spell"]):
+            live["spell"][rng.randrange(lib_db.NSTACKS)] = rng.randint(1, 3)
+    if rng.random() < 0.5:
+        # ONE instance: a tag move or an undeclare, then a plain declare (which saves the in-memory stack)
+        n = rng.choice(names) if names else rng.choice(NAMES)
+        si = rng.randrange(lib_db.NSTACKS)
+        v1, v2, v3 = rng.sample(VERS, 3)
+        t = rng.choice(["stable", "rc-1", "current"])
+        D = lambda v, tag=None, d=True: {"user": u, "flavor": fl, "name": n, "op": "declare", "version": v, "stack": None,
+                                         "tag": tag, "dir": [si, lib_db.rel_of(fl, n, v)] if d else None, "force": True}
+        mid = D(v2, t, False) if rng.random() < 0.6 else \
+            {"user": u, "flavor": fl, "name": n, "op": "undeclare", "version": v1, "stack": None, "tag": None, "vat": False}
+        live["seq"] = [[0, D(v1, t)], [0, D(v2)], [0, mid], [0, D(v3)]]
+        live["pattern"] = "tag move or undeclare, then a plain declare, one instance"
+    return live
 
 
 def gen_race(rng, h):
@@ -206,6 +225,9 @@ def gen_case(rng):
             kill.update(op="undeclare", stack=None, tag=None, vat=False)
         k = rng.randint(0, len(h["cmds"]))
         h["cmds"] = h["cmds"][:k] + [D(v1), D(v2), kill] + h["cmds"][k:]
+    for c in h["cmds"]:
+        if c.get("op") in ("declare", "undeclare", "assignTag", "unassignTag", "remove", "query", "race") and rng.random() < 0.25:
+            c["spell"] = [rng.randrange(4) for _ in range(lib_db.NSTACKS)]
     cmds = []
     for c in h["cmds"]:
         cmds.append(c)
@@ -257,6 +279,10 @@ def check_case(ctx, case, steps, msteps):
             continue
         if cmd["op"] == "live2":
             ctx.hist("live2: two instances in one process")
+            if cmd.get("spell"):
+                ctx.hist("live2 under a non-normal spelling of a stack path")
+                if cmd.get("pattern") and all(o == "ok" for o, _ in (rec.get("live") or {}).get("outs", [["?"]])):
+                    ctx.hist("non-normal spelling: tag move or undeclare then plain declare in one instance, all ok")
             if i > 0 and case["cmds"][i - 1]["op"] == "adminbuild":
                 ctx.hist("live2 right after eups admin buildCache -A (both read the stack-wide cache)")
             for (i, c), (o, calls) in zip(cmd["seq"], (rec.get("live") or {}).get("outs", [])):
@@ -399,6 +425,10 @@ def run(ctx):
         raise common.InfraError("degenerate distribution: %d histories with two live instances in %d" % (live, nh))
     if ctx.histogram.get("sync scenario: an instance went stale", 0) < 50 or ctx.histogram.get("sync event delete", 0) < 20:
         raise common.InfraError("degenerate distribution of the staleness scenarios: %s" % ({k: v for k, v in ctx.histogram.items() if k.startswith("sync")},))
+    sp = ctx.histogram.get("non-normal spelling: tag move or undeclare then plain declare in one instance, all ok", 0)
+    if nh > 60 and sp < nh // 25:
+        raise common.InfraError("degenerate distribution: %d single-instance tag-move-then-declare sequences under a non-normal "
+                                "spelling of the stack path in %d histories" % (sp, nh))
     inside = ctx.histogram.get("race: B ran inside A's reload", 0)
     if nh > 60 and inside < nh // 12:
         raise common.InfraError("degenerate distribution: %d races with writer B inside writer A's reload in %d histories" % (inside, nh))
